@@ -28,7 +28,9 @@ impl Solution {
             .as_ref()
             .ok_or(Error::Interpolation(InterpolationError::NotEnabled))?;
         let (start, end) = dense.t_span().ok_or(Error::Interpolation(InterpolationError::NotEnabled))?;
-        let (lo, hi) = (start.min(end), start.max(end));
+        // Same slack as the segment lookup, so every reported time can be evaluated
+        let tol = 1e-12;
+        let (lo, hi) = (start.min(end) - tol, start.max(end) + tol);
         if t < lo || t > hi {
             return Err(Error::Interpolation(InterpolationError::OutOfRange {
                 t,
@@ -51,7 +53,8 @@ impl Solution {
             .as_ref()
             .ok_or(Error::Interpolation(InterpolationError::NotEnabled))?;
         let (start, end) = dense.t_span().ok_or(Error::Interpolation(InterpolationError::NotEnabled))?;
-        let (lo, hi) = (start.min(end), start.max(end));
+        let tol = 1e-12;
+        let (lo, hi) = (start.min(end) - tol, start.max(end) + tol);
         for &t in ts {
             if t < lo || t > hi {
                 return Err(Error::Interpolation(InterpolationError::OutOfRange {
